@@ -94,6 +94,8 @@ class CachedStore(Entity):
         # Cache storage
         self._cache: dict[str, Any] = {}
         self._dirty_keys: set[str] = set()  # For write-back
+        # Write-through puts issued by this cache that have not reached the backing store yet
+        self._puts_in_flight: dict[str, int] = {}
 
         # Statistics
         self._reads = 0
@@ -181,8 +183,10 @@ class CachedStore(Entity):
         self._misses += 1
         value = yield from self._backing_store.get(key)
 
-        if value is not None:
-            # Cache the value
+        # Cache the value, unless the key was written while the fetch was in
+        # flight: the entry already cached (or the put still on its way to
+        # the backing store) is newer than what was just read.
+        if value is not None and key not in self._cache and not self._puts_in_flight.get(key):
             self._cache_put(key, value)
 
         return value
@@ -207,7 +211,14 @@ class CachedStore(Entity):
 
         if self._write_through:
             # Write to backing store
-            yield from self._backing_store.put(key, value)
+            self._puts_in_flight[key] = self._puts_in_flight.get(key, 0) + 1
+            try:
+                yield from self._backing_store.put(key, value)
+            finally:
+                if self._puts_in_flight[key] > 1:
+                    self._puts_in_flight[key] -= 1
+                else:
+                    del self._puts_in_flight[key]
         else:
             # Mark as dirty for later writeback
             self._dirty_keys.add(key)
@@ -226,10 +237,16 @@ class CachedStore(Entity):
             True if key existed in either cache or backing store.
         """
         existed_in_cache = key in self._cache
-        if existed_in_cache:
-            self._cache_remove(key)
 
         existed_in_store = yield from self._backing_store.delete(key)
+
+        # Drop the cached copy only once the backing store has dropped its
+        # own. Until then readers keep seeing the cached (newest) value
+        # rather than whatever older value the backing store still holds,
+        # and an entry re-inserted by a miss that raced with the delete is
+        # removed as well.
+        if key in self._cache:
+            self._cache_remove(key)
         return existed_in_cache or existed_in_store
 
     def invalidate(self, key: str) -> None:
